@@ -11,7 +11,7 @@ use crate::model::unit::cost::ReverseCost;
 use crate::model::unit::Cost;
 use crate::util::priority_queue::InternalPriorityQueue;
 
-use std::collections::HashMap;
+use std::collections::{HashMap, HashSet};
 use std::time::Instant;
 
 /// run an A* Search over the given directed graph model. traverses links
@@ -37,6 +37,11 @@ pub fn run_a_star(
     let mut costs: InternalPriorityQueue<VertexId, ReverseCost> = InternalPriorityQueue::default();
     let mut traversal_costs: HashMap<VertexId, Cost> = HashMap::new();
     let mut solution: HashMap<VertexId, SearchTreeBranch> = HashMap::new();
+    // vertices whose incident edges have been relaxed. with an inadmissible estimate (a
+    // weight factor above 1) such a vertex can be reached again over a cheaper way.
+    // re-labelling it would leave the branches of its children with a state computed from
+    // the old label, so an expanded vertex keeps the label it was expanded with.
+    let mut expanded: HashSet<VertexId> = HashSet::new();
 
     // setup initial search state
     traversal_costs.insert(source, Cost::ZERO);
@@ -61,6 +66,8 @@ pub fn run_a_star(
             None => break,
             Some(id) => id,
         };
+
+        expanded.insert(current_vertex_id);
 
         let last_edge_id = get_last_traversed_edge_id(&current_vertex_id, &source, &solution)?;
         let last_edge = match last_edge_id {
@@ -110,7 +117,7 @@ pub fn run_a_star(
                 .get(&key_vertex_id)
                 .unwrap_or(&Cost::INFINITY)
                 .to_owned();
-            if tentative_gscore < existing_gscore {
+            if tentative_gscore < existing_gscore && !expanded.contains(&key_vertex_id) {
                 traversal_costs.insert(key_vertex_id, tentative_gscore);
 
                 // update solution
